@@ -14,10 +14,14 @@
 //!   x<p>        recover(current owner, |_| p == 1, Default); afterwards the thread forgets all its handles and
 //!               continues under a fresh owner id
 //!   u           update_state(this thread's own ContainerState), then list it with for_each
-//! return codes (R lines): add 1+index | 0 OutOfSpace | 64 IsLocked;  remove 0 Unlocked | 1 Locked | 2 Err;
-//!   recover 2*acc + locked, acc = base-32 digits of the payloads handed to the predicate, in call order;
-//!   update_state changed + 2*snap, snap = sum over slots i of digit_i * 32^i, digit = 0 absent, id (1..30),
-//!   31 = payload fails its self-check (torn / never written).
+//! return codes (R lines) = tag + 8 * payload (see coq/model/Container.v):
+//!   add     tag 1, payload res + 128*id, res = 1+index | 0 OutOfSpace | 64 IsLocked
+//!   remove  tag 2, payload res + 128*j,  res = 0 Unlocked | 1 Locked | 2 Err
+//!   recover tag 3, payload 2*acc + locked, acc = base-32 digits of the payloads handed to the predicate, in call order
+//!   update  tag 4, payload changed + 2*snap, snap = sum over slots i of digit_i * 32^i, digit = 0 absent, id (1..30),
+//!           31 = payload fails its self-check (torn / never written).
+//! F line: snap of a fresh reader, len(), whether a second refresh of that reader reports a change, then one token
+//!   t.start.end.code per returned operation (positions in the execution log) for the real-time-order oracle.
 extern crate iceoryx2_bb_loggers;
 use core::ptr::NonNull;
 use iceoryx2_bb_elementary::bump_allocator::BumpAllocator;
@@ -86,6 +90,7 @@ fn distances(s: &Sut) -> [u64; 3] {
     [rd(base), rd(base + 8), rd(base + core::mem::size_of::<Container<Pay>>() - 32)]
 }
 
+fn rc(tag: u64, payload: u64) -> u64 { tag + 8 * payload }
 fn owner_of(t: usize, epoch: u64) -> OwnerId { OwnerId::new(1 + 16 * t as u64 + epoch).unwrap() }
 
 fn snap_code(st: &ContainerState<Pay>) -> u64 {
@@ -111,28 +116,29 @@ fn bodies(s: &Arc<Sut>, prog: &[Vec<Op>]) -> Vec<Body> {
                         let r = match fuse { None => Some(unsafe { s.c.add(pay(id), o) }), Some(k) => with_fuse(k, || unsafe { s.c.add(pay(id), o) }) };
                         match r {
                             None => {}
-                            Some(Ok((_, h))) => { handles.push(Some(h)); ret(1 + h.index() as u64); }
-                            Some(Err(ContainerAddFailure::OutOfSpace)) => ret(0),
-                            Some(Err(ContainerAddFailure::IsLocked)) => ret(64),
+                            Some(Ok((_, h))) => { handles.push(Some(h)); ret(rc(1, 1 + h.index() as u64 + 128 * id)); }
+                            Some(Err(ContainerAddFailure::OutOfSpace)) => ret(rc(1, 128 * id)),
+                            Some(Err(ContainerAddFailure::IsLocked)) => ret(rc(1, 64 + 128 * id)),
                         }
                     }
                     Op::Rem(j, fuse) => {
                         if let Some(Some(h)) = handles.get(j).copied() {
                             handles[j] = None;
                             let r = match fuse { None => Some(unsafe { s.c.remove(h, ReleaseMode::Default) }), Some(k) => with_fuse(k, || unsafe { s.c.remove(h, ReleaseMode::Default) }) };
-                            match r { None => {}, Some(Ok(ReleaseState::Unlocked)) => ret(0), Some(Ok(ReleaseState::Locked)) => ret(1), Some(Err(_)) => ret(2) }
+                            let jj = 128 * j as u64;
+                            match r { None => {}, Some(Ok(ReleaseState::Unlocked)) => ret(rc(2, jj)), Some(Ok(ReleaseState::Locked)) => ret(rc(2, 1 + jj)), Some(Err(_)) => ret(rc(2, 2 + jj)) }
                         }
                     }
                     Op::Rec(p) => {
                         let mut acc = 0u64;
                         let r = unsafe { s.c.recover(owner_of(t, epoch), |d| { acc = acc * 32 + digit(&d); p }, ReleaseMode::Default) };
-                        ret(2 * acc + if r == ReleaseState::Locked { 1 } else { 0 });
+                        ret(rc(3, 2 * acc + if r == ReleaseState::Locked { 1 } else { 0 }));
                         epoch += 1;
                         for h in handles.iter_mut() { *h = None; }
                     }
                     Op::Upd => {
                         let ch = unsafe { s.c.update_state(&mut st) };
-                        ret(ch as u64 + 2 * snap_code(&st));
+                        ret(rc(4, ch as u64 + 2 * snap_code(&st)));
                     }
                 }
             }
@@ -164,8 +170,18 @@ fn emit(cap: usize, prog: &[Vec<Op>], ex: &Exec, s: &Sut, out: &mut impl Write) 
     let sched: Vec<String> = ex.choices.iter().map(|c| c.to_string()).collect();
     let _ = writeln!(out, "S {}", sched.join(","));
     // final observation (ungated, main thread): what a fresh reader sees, and the number of owned indices
-    let st = unsafe { s.c.get_state() };
-    let _ = writeln!(out, "F {},{}", snap_code(&st), s.c.len());
+    let mut st = unsafe { s.c.get_state() };
+    let snap = snap_code(&st);
+    let again = unsafe { s.c.update_state(&mut st) };
+    let mut toks = vec![snap.to_string(), s.c.len().to_string(), (again as u8).to_string()];
+    let mut start: Vec<Option<usize>> = vec![None; prog.len()];
+    for (pos, r) in ex.log.iter().enumerate() {
+        match r {
+            Rec::Acc { tid, .. } => { if start[*tid].is_none() { start[*tid] = Some(pos); } }
+            Rec::Ret { tid, code } => { if *code != u64::MAX { toks.push(format!("{}.{}.{}.{}", tid, start[*tid].unwrap_or(pos), pos, code)); } start[*tid] = None; }
+        }
+    }
+    let _ = writeln!(out, "F {}", toks.join(","));
 }
 
 fn ups(n: usize) -> Vec<Op> { vec![Op::Upd; n] }
